@@ -38,6 +38,8 @@ template void d::BitWriteStreamT<100>::write<20>(uint32_t);
 template uint8_t d::BitReadStreamT<100>::read<5>();
 template uint16_t d::BitReadStreamT<100>::read<12>();
 template uint32_t d::BitReadStreamT<100>::read<20>();
+template class d::TaskListT<void, 5>;
+template ffsm2::Long d::TaskListT<void, 5>::emplace<const ffsm2::StateID&, const ffsm2::StateID&>(const ffsm2::StateID&, const ffsm2::StateID&);
 uint32_t leafcode_use_bitWidth(uint32_t v) { return ffsm2::bitWidth(v); }
 """
 
@@ -91,7 +93,11 @@ class Fn:
         self.order = []           # emitted names in order of declaration
         self.params = []
         for p in params:
-            if is_ref(p) or "*" in qual(p) or "[" in qual(p):
+            if is_ref(p) and is_const_qualified(p) and strip_cv(qual(p)) in TYPEMAP:
+                # const T& of a scalar type: read like a value parameter (the caller's object is not modified during the call - the functions translated
+                # receive locals of their callers; stated in DESIGN.md 4.7)
+                self.params.append(self.declare(p)); self.const_local.add(p["id"])
+            elif is_ref(p) or "*" in qual(p) or "[" in qual(p):
                 self.alias[p["id"]] = ("object", p.get("name"))                # a reference to an object: only used as a member-access base
             else:
                 self.params.append(self.declare(p))
@@ -126,6 +132,11 @@ class Fn:
     def lvalue(self, n):
         k = n["kind"]
         if k == "ParenExpr": return self.lvalue(kids(n)[0])
+        if k == "CallExpr":                                          # ffsm2::forward<T>(x) / ffsm2::move(x): the same object
+            ks = kids(n); callee = ks[0]
+            while callee["kind"] in ("ImplicitCastExpr", "ParenExpr"): callee = kids(callee)[0]
+            if callee["kind"] == "DeclRefExpr" and callee["referencedDecl"].get("name") in ("forward", "move") and len(ks) == 2: return self.lvalue(ks[1])
+            raise Unsupported("call used as an lvalue")
         if k == "ImplicitCastExpr" and n.get("castKind") == "NoOp": return self.lvalue(kids(n)[0])
         if k == "DeclRefExpr":
             rd = n["referencedDecl"]; rid = rd["id"]
@@ -138,6 +149,12 @@ class Fn:
             raise Unsupported("reference to %s %s" % (rd.get("kind"), rd.get("name")))
         if k == "MemberExpr":
             if "[" in qual(n): raise Unsupported("array member used as a value")
+            base = kids(n)[0]
+            while (base["kind"] == "MemberExpr" and not base.get("name")) or (base["kind"] == "ImplicitCastExpr" and base.get("castKind") in ("UncheckedDerivedToBase", "DerivedToBase", "NoOp")):
+                base = kids(base)[0]          # through an anonymous union / to the base class that declares the member
+            if base["kind"] == "DeclRefExpr" and self.alias.get(base["referencedDecl"]["id"], ("",))[0] == "elemobj":
+                _, arr, idx = self.alias[base["referencedDecl"]["id"]]
+                return ("elem", arr + "." + UNION_CANON.get(n["name"], n["name"]), idx)
             return ("field", self.path(n))
         if k == "ArraySubscriptExpr":
             a, i = kids(n)
@@ -246,6 +263,16 @@ class Fn:
         if k != "VarDecl": raise Unsupported("declaration kind %s" % k)
         init = kids(d)
         init = [c for c in init if c.get("kind") not in ("FullComment",)]
+        if is_ref(d) and len(init) == 1 and strip_noop(init[0])["kind"] == "ArraySubscriptExpr" and strip_cv(qual(init[0])) not in TYPEMAP:
+            # a reference to an element of an array of structs: the index is evaluated now (a reference stays bound to that element), members are reached
+            # through one array per field ("_items.origin")
+            a, i = kids(strip_noop(init[0]))
+            hidden = (d.get("name") or "ref") + "#idx"
+            k = self.names.get(hidden, 0); self.names[hidden] = k + 1
+            if k: hidden = "%s'%d" % (hidden, k)
+            self.order.append(hidden)
+            self.alias[d["id"]] = ("elemobj", self.path(a), "EVar %s" % coq_str(hidden))
+            return "SLocal %s (%s)" % (coq_str(hidden), self.expr(i))
         if is_ref(d):
             if len(init) != 1: raise Unsupported("reference without initialiser")
             lv = self.lvalue(init[0]) if "[" not in strip_cv(qual(init[0])) else ("array", self.path(init[0]))
@@ -313,6 +340,7 @@ class Fn:
             if tr != ta: e = "ECast %s (%s)" % (ta, e)
             return self.write(lv, e)
         if k == "UnaryOperator" and n["opcode"] in ("++", "--"): return self.incdec(n)
+        if k == "CXXNewExpr": return self.placement_new(n)
         raise Unsupported("statement kind %s" % k)
 
     def for_stmt(self, n):
@@ -378,6 +406,23 @@ class Fn:
         b = self.seq([self.stmt(c) for c in bk[:-1]])
         if name in self.assigned - before or name in before: raise Unsupported("the loop counter is assigned in the body")
         return "SForRange %s %s (%s) (%s)\n(%s)" % (coq_str(name), t, lo, hi, b)
+
+    def placement_new(self, n):
+        """new (&elem) Item{a, b}: the constructor's member initialisers as assignments to the element's fields (only constructors whose body is empty and
+        whose initialisers are `field{parameter}`, looked up in the AST by class and arity)"""
+        ks = kids(n)
+        ctor = [c for c in ks if c["kind"] == "CXXConstructExpr"]; place = [c for c in ks if c["kind"] != "CXXConstructExpr"]
+        if len(ctor) != 1 or len(place) != 1: raise Unsupported("new-expression shape")
+        tgt = place[0]
+        while tgt["kind"] in ("ImplicitCastExpr", "ParenExpr", "CStyleCastExpr"): tgt = kids(tgt)[0]
+        if tgt["kind"] != "UnaryOperator" or tgt["opcode"] != "&": raise Unsupported("placement address")
+        obj = kids(tgt)[0]
+        if obj["kind"] != "DeclRefExpr" or self.alias.get(obj["referencedDecl"]["id"], ("",))[0] != "elemobj": raise Unsupported("placement target")
+        _, arr, idx = self.alias[obj["referencedDecl"]["id"]]
+        args = kids(ctor[0]); cls = strip_cv(qual(ctor[0])).split("::")[-1].split("<")[0]
+        inits = ctor_inits(cls, len(args))
+        if inits is None: raise Unsupported("constructor of %s with %d arguments is not a plain member-wise initialiser" % (cls, len(args)))
+        return self.seq(["SSetElem %s (%s) (%s)" % (coq_str(arr + "." + UNION_CANON.get(f, f)), idx, self.expr(args[k])) for f, k in inits])
 
     def expr_stmt(self, n): return self.stmt(n)
 
@@ -499,6 +544,9 @@ def methods(spec):
         if c.get("kind") == "FunctionTemplateDecl":
             for m in c.get("inner", []):
                 if m.get("kind") == "CXXMethodDecl" and body_of(m) and targ_values(m): out.append((m["name"], targ_values(m), m))
+                elif m.get("kind") == "CXXMethodDecl" and body_of(m) and any(x.get("kind") == "TemplateArgument" for x in m.get("inner", [])):
+                    # instantiated with a parameter pack: name it by its parameter types
+                    out.append((m["name"], tuple(strip_cv(qual(q)) for q in params_of(m)), m))
     return out
 
 OPNAMES = {"operator&": "op_and", "operator&=": "op_and_assign", "operator==": "op_eq", "operator!=": "op_ne"}
@@ -513,7 +561,50 @@ def indent(term, ind="  "):
         depth += line.count("(") - line.count(")")
     return "\n".join(out)
 
-CLASSES = [("BitArrayT", (13,)), ("BitArrayT", (300,)), ("StreamBufferT", (100,)), ("BitWriteStreamT", (100,)), ("BitReadStreamT", (100,))]
+CLASSES = [("TaskListT", ("void", 5)), ("BitArrayT", (13,)), ("BitArrayT", (300,)), ("StreamBufferT", (100,)), ("BitWriteStreamT", (100,)), ("BitReadStreamT", (100,))]
+
+UNION_CANON = {}    # member of an anonymous union -> the first member of that union (they share storage)
+CTORS = {}          # class name -> [(number of parameters, [(field, parameter index)] or None)]
+BASES = {}          # class name -> base class names
+def index_records(ast):
+    UNION_CANON.clear(); CTORS.clear(); BASES.clear()
+    def rec(n):
+        if n.get("kind") in ("CXXRecordDecl", "ClassTemplateSpecializationDecl") and n.get("completeDefinition"):
+            name = n.get("name")
+            for c in n.get("inner", []):
+                if c.get("kind") == "CXXRecordDecl" and not c.get("name") and c.get("tagUsed") == "union":
+                    fs = [f["name"] for f in c.get("inner", []) if f.get("kind") == "FieldDecl" and f.get("name")]
+                    for f in fs[1:]:
+                        if UNION_CANON.get(f, fs[0]) != fs[0]: UNION_CANON[f] = "<ambiguous>"
+                        else: UNION_CANON[f] = fs[0]
+                if c.get("kind") == "CXXConstructorDecl" and name:
+                    ps = [p for p in c.get("inner", []) if p.get("kind") == "ParmVarDecl"]
+                    body = [b for b in c.get("inner", []) if b.get("kind") == "CompoundStmt"]
+                    ok = bool(body) and not kids(body[0]); inits = []
+                    for x in c.get("inner", []):
+                        if x.get("kind") != "CXXCtorInitializer": continue
+                        f = (x.get("anyInit") or {}).get("name"); e = kids(x)
+                        while e and e[0]["kind"] in ("ImplicitCastExpr", "ParenExpr", "InitListExpr") and len(kids(e[0])) == 1: e = kids(e[0])
+                        if f and e and e[0]["kind"] == "DeclRefExpr" and e[0]["referencedDecl"]["id"] in [p["id"] for p in ps]:
+                            inits.append((f, [p["id"] for p in ps].index(e[0]["referencedDecl"]["id"])))
+                        elif x.get("anyInit") is None: pass          # a base-class initialiser: not supported
+                        else: ok = False
+                    CTORS.setdefault(name, []).append((len(ps), inits if ok and len(inits) == len(ps) else None))
+            if name:
+                for b in n.get("bases", []) or []:
+                    BASES.setdefault(name, []).append(strip_cv(b.get("type", {}).get("qualType", "")).split("::")[-1].split("<")[0])
+        for c in n.get("inner", []):
+            if c: rec(c)
+    rec(ast)
+def ctor_inits(cls, arity):
+    seen = set()
+    while cls and cls not in seen:
+        seen.add(cls)
+        cands = [i for (a, i) in CTORS.get(cls, []) if a == arity]
+        if any(c is not None for c in cands): return [c for c in cands if c is not None][0]
+        bs = sorted(set(BASES.get(cls, [])))
+        cls = bs[0] if len(bs) == 1 else None            # an inherited constructor (using Base::Base)
+    return None
 
 AST_OWNER = {}      # id of a member function -> label of the class template specialisation it belongs to
 AST_NODE = {}       # id -> node (function declarations only)
@@ -532,7 +623,7 @@ def index_ast(ast):
     go(ast, "")
 
 def translate(ast):
-    index_ast(ast)
+    index_ast(ast); index_records(ast)
     defs = []; notes = []; calls = set(); names = []
     def emit_method(cname, fd, consts, label):
         try:
